@@ -232,6 +232,9 @@ class Printer:
         if not self.opaque or t is None:
             return False
         for q in (t.get('qualType'), t.get('desugaredQualType')):
+            if q is not None and strip_cv(strip_cv(q).rstrip('&*').strip()) in SCALARS:
+                return False
+        for q in (t.get('qualType'), t.get('desugaredQualType')):
             if q is None:
                 continue
             q = strip_cv(q)
@@ -275,6 +278,9 @@ class Printer:
                     if a.get('valueCategory') == 'lvalue' and self.is_modelled_struct(at) and not re.search(r'\bconst\b', at.get('qualType', '')):
                         raise Unsupported(f'modelled object passed by possibly mutable reference inside an erased expression ({what})')
             if k in ('CallExpr', 'CXXOperatorCallExpr'):
+                cname_ = unwrap(x['inner'][0]).get('referencedDecl', {}).get('name', '')
+                if cname_ in ('operator()', 'operator[]'):
+                    continue    # element access: not a mutation by itself (stores through it are assignments, rejected above)
                 for a in x['inner'][1:]:
                     at = a.get('type', {})
                     if a.get('valueCategory') == 'lvalue' and self.is_modelled_struct(at) and not re.search(r'\bconst\b', at.get('qualType', '')):
